@@ -2,8 +2,11 @@ package props
 
 import (
 	"fmt"
+	"os"
+	"path/filepath"
 	"runtime"
 	"runtime/debug"
+	"strings"
 	"syscall"
 
 	"github.com/akalin/gopar/gf2p16"
@@ -179,6 +182,7 @@ func c09Gen(g *core.Gen) {
 			paths = []string{"dispatch", "wordslice", "generic", "platformle"}
 		}
 	}
+	g.Emit(&c09Case{Kind: "env"})
 	for _, p := range paths {
 		step := 256
 		for lo := 0; lo < 65536; lo += step {
@@ -196,8 +200,130 @@ func c09Gen(g *core.Gen) {
 	}
 }
 
+// c09Probe is the body of "vcheck aux c09-probe": in a fresh process, every constant x a 34-byte buffer (one SSSE3 block
+// plus a tail word) x {Mul, MulAndAdd} on every path of this build, each against the reference. Prints "ok" or the first
+// wrong product.
+func c09Probe(args []string) int {
+	paths := []string{"dispatch-ssse3", "dispatch-nossse3", "dispatch", "generic", "platformle", "wordslice"}
+	const L = 34
+	in, out, prior := make([]byte, L), make([]byte, L), make([]byte, L)
+	for _, p := range paths {
+		k, _ := c09Path(p)
+		if k == nil {
+			continue
+		}
+		for cc := 0; cc < 65536; cc++ {
+			for i := range in {
+				in[i] = byte(i*29 + cc*3 + cc>>8 + 1)
+				prior[i] = byte(i*131 + cc)
+			}
+			for op := 0; op < 2; op++ {
+				copy(out, prior)
+				if op == 0 {
+					k.mul(gf2p16.T(cc), in, out)
+				} else {
+					k.mulAdd(gf2p16.T(cc), in, out)
+				}
+				for x := 0; x < L/2; x++ {
+					want := gf16.Mul(uint16(cc), uint16(in[2*x])|uint16(in[2*x+1])<<8)
+					if op == 1 {
+						want ^= uint16(prior[2*x]) | uint16(prior[2*x+1])<<8
+					}
+					if got := uint16(out[2*x]) | uint16(out[2*x+1])<<8; got != want {
+						fmt.Printf("WRONG path=%s op=%d c=%#x word %d: %#x, want %#x\n", p, op, cc, x, got, want)
+						return 0
+					}
+				}
+			}
+		}
+		k.restore()
+	}
+	fmt.Println("ok")
+	return 0
+}
+
+// c09EnvRun: the kernels in a fresh process whose HOME, XDG_*, TMPDIR and working directory are scratch directories;
+// then again for every file the first process left there x every mutation of it (truncated, emptied, garbled, grown,
+// replaced by a directory). A product that depends on what is lying around in the user's directories is wrong.
+func c09EnvRun(r *core.Rec) {
+	root := filepath.Join(core.ScratchBase(), fmt.Sprintf("verif-c09env-%d", os.Getpid()))
+	os.RemoveAll(root)
+	defer os.RemoveAll(root)
+	var env []string
+	for _, v := range []string{"HOME", "XDG_CACHE_HOME", "XDG_CONFIG_HOME", "XDG_DATA_HOME", "XDG_STATE_HOME", "XDG_RUNTIME_DIR", "TMPDIR"} {
+		d := filepath.Join(root, strings.ToLower(v))
+		os.MkdirAll(d, 0755)
+		env = append(env, v+"="+d)
+	}
+	cwd := filepath.Join(root, "cwd")
+	os.MkdirAll(cwd, 0755)
+	probe := func(what string) bool {
+		out, err := core.FreshProcessEnv(env, cwd, "c09-probe")
+		r.AddTransitions(1)
+		if err != nil || strings.TrimSpace(out) != "ok" {
+			r.Violatef("kernel-result-depends-on-environment", "%s: probe says %q err=%v", what, strings.TrimSpace(out), err)
+			return false
+		}
+		return true
+	}
+	list := func() map[string][]byte {
+		m := map[string][]byte{}
+		filepath.Walk(root, func(p string, st os.FileInfo, err error) error {
+			if err == nil && st.Mode().IsRegular() {
+				b, _ := os.ReadFile(p)
+				m[p] = b
+			}
+			return nil
+		})
+		return m
+	}
+	if !probe("empty environment") || !probe("second process in the same environment") {
+		return
+	}
+	left := list()
+	r.Count("files_left_in_user_directories", len(left))
+	states := 2
+	for p, orig := range left {
+		muts := map[string]func() error{
+			"emptied":                 func() error { return os.WriteFile(p, nil, 0644) },
+			"one byte":                func() error { return os.WriteFile(p, orig[:1], 0644) },
+			"half":                    func() error { return os.WriteFile(p, orig[:len(orig)/2], 0644) },
+			"one byte short":          func() error { return os.WriteFile(p, orig[:len(orig)-1], 0644) },
+			"first byte flipped":      func() error { b := append([]byte{}, orig...); b[0] ^= 0xff; return os.WriteFile(p, b, 0644) },
+			"middle byte flipped":     func() error { b := append([]byte{}, orig...); b[len(b)/2] ^= 0x55; return os.WriteFile(p, b, 0644) },
+			"last byte flipped":       func() error { b := append([]byte{}, orig...); b[len(b)-1] ^= 0x01; return os.WriteFile(p, b, 0644) },
+			"grown":                   func() error { return os.WriteFile(p, append(append([]byte{}, orig...), 1, 2, 3), 0644) },
+			"all zero":                func() error { return os.WriteFile(p, make([]byte, len(orig)), 0644) },
+			"replaced by a directory": func() error { os.Remove(p); return os.Mkdir(p, 0755) },
+			"removed":                 func() error { return os.Remove(p) },
+		}
+		if len(orig) == 0 {
+			muts = map[string]func() error{"grown": muts["grown"], "replaced by a directory": muts["replaced by a directory"]}
+		}
+		for name, m := range muts {
+			if m() != nil {
+				continue
+			}
+			states++
+			ok := probe(fmt.Sprintf("%s %s", strings.TrimPrefix(p, root), name))
+			os.RemoveAll(p)
+			os.WriteFile(p, orig, 0644)
+			if !ok {
+				return
+			}
+		}
+	}
+	r.AddStates(states)
+	r.Outcome(fmt.Sprintf("env files=%d", len(left)))
+	r.NontrivialCase()
+}
+
 func c09Run(ci interface{}, r *core.Rec) {
 	c := ci.(*c09Case)
+	if c.Kind == "env" {
+		c09EnvRun(r)
+		return
+	}
 	k, why := c09Path(c.Path)
 	if k == nil {
 		r.Note("path " + c.Path + " skipped: " + why)
@@ -365,12 +491,13 @@ func c09Run(ci interface{}, r *core.Rec) {
 }
 
 func init() {
+	core.Aux["c09-probe"] = c09Probe
 	core.Register(&core.Prop{
 		ID:      "C09",
 		AltArch: true,
 		Level:   "model_checking",
 		Rule: "complete over values: for every dispatch path (SSSE3 assembly, non-SSSE3 assembly via the forced flag, portable Go byte kernels, the little-endian cast path, the []T kernels used by Matrix with the dispatch flag on and off, and the real non-amd64 dispatch (byte and []T kernels) in a GOARCH=386 worker) x every constant c (65536) x a buffer holding every word value (65536) x {Mul, MulAndAdd against a prior content}. " +
-			"Shapes: every even length 0..200 and {65534,65536,65538,131070,131072,131074,262178} x every (src,dst) alignment pair mod 16 (4x4 for the large ones) x 8 constants x placement against the upper / lower PROT_NONE guard page, and (lengths <= 200) as a window of a larger area whose capacity extends beyond the length, plus in==out aliasing. " +
+			"Shapes: every even length 0..200 and {65534,65536,65538,131070,131072,131074,262178} x every (src,dst) alignment pair mod 16 (4x4 for the large ones) x 8 constants x placement against the upper / lower PROT_NONE guard page, and (lengths <= 200) as a window of a larger area whose capacity extends beyond the length, plus in==out aliasing. Environment: every constant x a 34-byte buffer on every path in a FRESH process whose HOME / XDG_* / TMPDIR / working directory are scratch directories, then again for every file that process left there x 11 mutations of it (truncated, emptied, garbled, grown, replaced by a directory, removed). " +
 			"Oracle: out[i]==ref(c,in[i]) (xor prior); input unchanged; guard pages (faults become panics via SetPanicOnFault) and canary bytes detect any access outside the buffers. non-trivial = every executed case",
 		Assumptions: []string{"'no SSSE3' is simulated by forcing the dispatch flag (build-tagged hook)", "big-endian hosts are reached only through the exported portable byte kernels"},
 		NewCase:     func() interface{} { return &c09Case{} },
